@@ -203,7 +203,7 @@ RecvHs(s, r, c, ch) ==
                 ELSE IF s.hs = "T13_START" THEN "CLIENT_HELLO" ELSE s.hs
         cc   == IF isHello /\ ~s.helloDone THEN c ELSE s.cfg
         g    == IF fam2 = "T13" THEN Gate13(s.role, s.hs, m) ELSE GateL(s.role, hsL, m, cc, s)
-        good == r.gen \/ ch = "good"
+        good == ch = "good"
     IN
     IF s.hs = "DONE" /\ s.fam = "L" /\ ((s.role = "S" /\ m = "CLIENT_HELLO") \/ (s.role = "C" /\ m = "HELLO_REQUEST")) THEN
         \* renegotiation is compiled out: refused with a no_renegotiation WARNING, the session lives on
@@ -317,9 +317,12 @@ AllowedChoices(s, r) ==
     ELSE IF s.desync THEN {"rlfail", "part"}
     ELSE IF v = "bad" THEN (IF r.frag THEN {"good", "part"} ELSE {"good"})
     ELSE IF v \in {"ignore", "plainalert"} THEN (IF r.gen THEN {"good"} ELSE IF r.frag THEN {"good", "bad", "part"} ELSE {"good", "bad"})
-    ELSE IF v = "ok" THEN (IF r.gen THEN {"good"} ELSE {"good", "bad"})
+    \* a well-formed genuine handshake message can still be refused on its merits (empty or untrusted
+    \* certificate, unacceptable parameters): "bad" stays possible for handshake messages
+    ELSE IF v = "ok" THEN (IF r.gen /\ r.it # "hs" THEN {"good"} ELSE {"good", "bad"})
     ELSE IF v = "garbage" THEN {"rlfail", "part", "bad"}
     ELSE IF r.free THEN Choices
+    ELSE IF r.it = "hs" THEN {"good", "bad"}
     ELSE {"good"}
 
 (* One record handed to a live endpoint. *)
